@@ -101,6 +101,9 @@ type HintBuffer struct {
 type hintSplit struct {
 	buf  *HintBuffer
 	file *hintFileIndex
+	// set while the buffer is being written to its file with the chunk lock released:
+	// keeps a second dumper (periodic dumper, write path, close, GC) away from the same split
+	dumping bool
 }
 
 func NewHintBuffer() *HintBuffer {
@@ -111,7 +114,7 @@ func NewHintBuffer() *HintBuffer {
 }
 
 func newhintSplit() *hintSplit {
-	return &hintSplit{NewHintBuffer(), nil}
+	return &hintSplit{buf: NewHintBuffer()}
 }
 
 func (h *HintBuffer) SetMaxOffset(offset uint32) {
@@ -208,7 +211,7 @@ func (h *HintBuffer) Dump(path string) (index *hintFileIndex, err error) {
 }
 
 func (h *hintSplit) needDump() bool {
-	return h.file == nil && h.buf.num > 0
+	return h.file == nil && !h.dumping && h.buf != nil && h.buf.num > 0
 }
 
 type hintChunk struct {
@@ -354,17 +357,22 @@ func (by byKeyHash) Less(i, j int) bool {
 func (h *hintMgr) dump(chunkID, splitID int) (err error) {
 	ck := h.chunks[chunkID]
 	sp := ck.splits[splitID]
+	// the caller holds the chunk lock
+	sp.dumping = true
+	buf := sp.buf
 
 	ck.Unlock()
-	defer ck.Lock()
-
 	path := h.getPath(chunkID, splitID, false)
 	logger.Infof("dump %s", path)
-	sp.file, err = sp.buf.Dump(path)
+	file, err := buf.Dump(path)
+	ck.Lock()
+
 	if err == nil {
+		sp.file = file
 		h.maxDumpedHintID.setIfLarger(chunkID, splitID)
 	}
 	sp.buf = nil
+	sp.dumping = false
 	return nil
 }
 
